@@ -166,4 +166,22 @@ PROPS = {
         trusted=["modelled not verified: the paging server as a list of pages; the follow-up search replacing the stream's channel"],
         assumptions=["PagedResults alone in the chain in the model; chaining behind EntriesOnly is exercised only by Ldap::search-style use in other lanes"],
     ),
+    "C17": dict(
+        groups=[("tls", 90, 600)],
+        exact_lanes=["tls"],
+        rule="matrix scheme (ldap/ldaps) x StartTLS x verification disabled x connector (default / custom with the test CA) x server behaviour (StartTLS answer: success, rc 2, rc 53, garbage, close, another message first; certificate: chains to the CA, self-signed, wrong name; handshake completes or aborted; forged cleartext reply appended to the StartTLS response) "
+             "against loopback listeners with a native-tls acceptor; the server logs every cleartext and every decrypted LDAP message. quick = strided sample, thorough = whole matrix. non-trivial = distinct case that reached a verdict (not skipped)",
+        trivial=["skipped"],
+        trusted=["oracle, not modelled: the TLS library (handshake, X.509 path and name validation); certificates minted by tools/mkcerts.sh (openssl CLI)", "real sockets and wall-clock guards (2.5 s per establishment)"],
+        assumptions=["PARTIAL: the model takes 'certificate trusted for the host name' and 'handshake completes' as oracle inputs"],
+    ),
+    "C18": dict(
+        groups=[("setup", 70, 1700)],
+        exact_lanes=["setup"],
+        rule="URL strings (schemes ldap/ldaps/ldapi/http/LDAP/ldapx x host localhost/127.0.0.1/empty/absent x port none/389/636/38901 x path forms, percent-encoded socket paths, ldapi with port, unparsable URLs) x settings (StartTLS, pre-opened TCP / Unix / invalid stream, connection timeout) "
+             "against loopback listeners on 389, 636, 38901 and a Unix socket that record who was contacted and what the client sent first (nothing / LDAP / StartTLS request / TLS hello); plus an unreachable endpoint and a silent server under a connection timeout. non-trivial = distinct case that contacted an endpoint",
+        trivial=["skipped", "err:url", "err:scheme", "err:mismatched", "err:portunix", "err:emptyunix", "oracle-only"],
+        trusted=["oracle, not modelled: the url crate (the model starts from scheme/host_str/port, re-checked per case), name resolution of localhost", "real sockets; listeners need ports 389/636/38901 (the lane reports 'skipped' if they cannot be bound)"],
+        assumptions=[],
+    ),
 }
